@@ -607,6 +607,12 @@ func newScratch(n int) *scratch {
 
 func (s *scratch) set(i int, v int64) { s.buf[i].SetInt64(v) }
 
+// KEYLEVELP control: the P-level is taken from the QP receiver although a key is at hand
+func (e fixEvaluator) SwitchWith(evk *rlwe.EvaluationKey, pk *rlwe.PublicKey) int {
+	levelP := pk.LevelP()
+	return levelP + evk.LevelQ()
+}
+
 func rnsBad(r *ring.Ring, v uint64) (rns ring.RNSScalar) {
 	rns = make(ring.RNSScalar, r.Level()+1)
 	for i := range rns {
